@@ -4766,6 +4766,8 @@ class ParseCtx:
             if targeted.type == OutputStorageType.RAW:
                 raise IllegalParseTree("Raw types only support append expressions, did you mean +=?", sub_expr)
             return ActionNode(SetTo(self._parse_integer_expr(stmt.children[1], targeted), targeted))
+        else:
+            raise IllegalParseTree("Only string and raw outputs support append expressions, did you mean =?", stmt.children[0])
 
     def _parse_case_clause(self, clause: lark.Tree):
         result_set = set()
